@@ -22,11 +22,11 @@ def failed_tests(out):
     return sorted(set(re.findall(r"^test (\S+) \.\.\. FAILED", out, re.M)))
 
 
-def confirm(pid, n):
+def confirm(pid, n, features=""):
     wt = f"{MUT}/{pid}/wt"
     out_dir = f"{MUT}/{pid}/out"
     diff, demo = f"{out_dir}/m{n}.diff", f"{out_dir}/demo{n}.rs"
-    res = {"property": pid, "mutant": n}
+    res = {"property": pid, "mutant": n, "features": features}
     sh("git checkout -- . && git clean -fdq tests/", wt)
     rc, o = sh(f"git apply --check {diff} && git apply {diff}", wt)
     res["applies"] = rc == 0
@@ -35,7 +35,8 @@ def confirm(pid, n):
         return res
     shutil.copy(demo, f"{wt}/tests/zz_demo{n}.rs")
     t0 = time.time()
-    rc, o = sh("cargo test --offline --no-fail-fast 2>&1", wt)
+    feat = f" --features {features}" if features else ""
+    rc, o = sh(f"cargo test --offline --no-fail-fast{feat} 2>&1", wt)
     failed = failed_tests(o)
     res["suite_with_change_failed"] = [f for f in failed if f.split("::")[-1] not in KNOWN_BAD and not f.startswith("demo") and "zz_demo" not in f]
     # demo tests are the failures inside the zz_demo binary
@@ -47,7 +48,7 @@ def confirm(pid, n):
     demo_names = set(re.findall(r"^test (\S+) \.\.\. ", re.search(r"Running tests/zz_demo%s\.rs(.*?)(?:Running|Doc-tests|$)" % n, o, re.S).group(1), re.M)) if m else set()
     res["suite_with_change_failed"] = [f for f in res["suite_with_change_failed"] if f not in demo_names]
     sh(f"git apply -R {diff}", wt)
-    rc, o = sh(f"cargo test --offline --test zz_demo{n} 2>&1", wt)
+    rc, o = sh(f"cargo test --offline{feat} --test zz_demo{n} 2>&1", wt)
     m2 = re.search(r"test result: (\w+)\. (\d+) passed; (\d+) failed", o)
     res["demo_without_change"] = m2.groups() if m2 else None
     sh("git checkout -- . && git clean -fdq tests/", wt)
@@ -81,7 +82,7 @@ def detect(pid, n, checks):
 
 
 def store(pid, n, extra):
-    src = f"{MUT}/{pid}/out"
+    src = f"{MUT}/{pid}/out1" if os.path.exists(f"{MUT}/{pid}/out1/m{n}.diff") and not os.path.exists(f"{MUT}/{pid}/out/m{n}.diff") else f"{MUT}/{pid}/out"
     dst = f"/verif/seeded/{pid}-m{n}"
     os.makedirs(dst, exist_ok=True)
     shutil.copy(f"{src}/m{n}.diff", f"{dst}/patch.diff")
@@ -93,10 +94,51 @@ def store(pid, n, extra):
     json.dump(meta, open(f"{dst}/meta.json", "w"), indent=1)
 
 
+NEEDS = {}
+
+
+def sweep(ids):
+    """confirm-data + detection for every delivered mutant; writes /verif/seeded/<id>-m<n>/."""
+    head = subprocess.run("git -C /repo rev-parse --short HEAD", shell=True, stdout=subprocess.PIPE, text=True).stdout.strip()
+    for pid in ids:
+        for n in (1, 2):
+            src = f"{MUT}/{pid}/out1" if os.path.exists(f"{MUT}/{pid}/out1/m{n}.diff") and not os.path.exists(f"{MUT}/{pid}/out/m{n}.diff") else f"{MUT}/{pid}/out"
+            if not os.path.exists(f"{src}/m{n}.diff"):
+                continue
+            conf = {}
+            cpath = f"/verif/.build/mut/confirm-{pid}-{n}.json"
+            if os.path.exists(cpath):
+                try:
+                    conf = json.load(open(cpath))
+                except ValueError:
+                    conf = {"error": open(cpath).read()[-300:]}
+            det = detect(pid, n, [pid])
+            meta = {
+                "breaks_property": pid,
+                "written_by": "independent sub-agent given only the property text and a scratch worktree",
+                "repo_commit_when_checked": head,
+                "confirmed_in_scratch_worktree": {
+                    "existing_suite_passes_with_change": conf.get("confirmed") is not None and not conf.get("suite_with_change_failed"),
+                    "demo_with_change": conf.get("demo_with_change"),
+                    "demo_without_change": conf.get("demo_without_change"),
+                    "cargo_features": conf.get("features", ""),
+                    "command": "cargo test --offline --no-fail-fast (with the patch applied and demo.rs as tests/zz_demo.rs); cargo test --test zz_demo (clean tree)",
+                },
+                "detection": det,
+                "detected_by": [c for c, r in det.items() if isinstance(r, dict) and r.get("violations")] if "error" not in det else [],
+                "how_run": f"git -C /repo apply patch.diff; ./check {pid} quick; git -C /repo checkout -- .",
+            }
+            store(pid, n, meta)
+            print(pid, n, "confirmed" if conf.get("confirmed") else conf.get("error", "unconfirmed")[:80], "->", meta["detected_by"] or det.get("error", "MISSED"), flush=True)
+
+
 if __name__ == "__main__":
+    if sys.argv[1] == "sweep":
+        sweep(sys.argv[2:])
+        sys.exit(0)
     cmd, pid, n = sys.argv[1], sys.argv[2], int(sys.argv[3])
     if cmd == "confirm":
-        print(json.dumps(confirm(pid, n)))
+        print(json.dumps(confirm(pid, n, sys.argv[4] if len(sys.argv) > 4 else "")))
     elif cmd == "detect":
         print(json.dumps(detect(pid, n, sys.argv[4:] or [pid])))
     elif cmd == "store":
